@@ -145,6 +145,13 @@ OPS = ["translate", "translate_x", "translate_y", "scale", "scale_c", "scale_x",
 def decode_algebra(d):
     A = gen.matrix(d)["m"]
     B = gen.matrix(d)["m"]
+    if d.chance(1, 6):
+        # the same well-conditioned matrix at another size (nanometres to metres, a far zoom): the linear part times
+        # 1e-9 .. 1e9 - its determinant is far from 1 although nothing about it is close to singular
+        k = d.choice([1e-9, 3e-8, 1e-7, 2.5e-6, 1e6, 4e7, 1e9])
+        A = [A[0] * k, A[1] * k, A[2] * k, A[3] * k, A[4], A[5]]
+        if d.bool():
+            B = [B[0] / k, B[1] / k, B[2] / k, B[3] / k, B[4], B[5]]
     ops = []
     for _ in range(d.int(1, 5)):
         side = d.choice(["pre", "post"])
